@@ -171,14 +171,31 @@ func runC18(c *core.Ctx) {
 	cfgs := c18Configs()
 	cfg := cfgs[c.Index%len(cfgs)]
 	G := []int{2, 4, 16, 32}[(c.Index/len(cfgs))%4]
-	callsPerG := 24
+	callsPerG := 14
 	if G <= 4 {
 		callsPerG = 60
 	}
 	// input pool in write-protected pages
+	large := c.Index%12 == 5 || c.Index%24 == 11
+	if large {
+		callsPerG = 10
+		if G > 4 {
+			G = 4
+		}
+		c.Feature("large-feeds-size-sweep")
+	}
 	var rtBufs []*core.ROBuf
 	for i := 0; i < 6; i++ {
-		rb, err := core.NewROBuf(rgen.Marshal(c06Feed(r, c.Index*8+i)))
+		msg := c06Feed(r, c.Index*8+i)
+		if large {
+			// all six inputs sit on the same side of one size threshold, so pooled or cached per-size state is shared between them
+			sizes := []int{1024, 1100, 1025, 1030, 1024, 1100}
+			if (c.Index/12)%2 == 1 {
+				sizes = []int{256, 300, 257, 260, 256, 300}
+			}
+			msg = c06FeedLarge(r, c.Index*8+i, sizes[i])
+		}
+		rb, err := core.NewROBuf(rgen.Marshal(msg))
 		if err != nil {
 			c.Note("harness_error", err.Error())
 			c.Observe("harness_errors", 1)
